@@ -485,7 +485,7 @@ func runProperty(prop, tier string, seed uint64) int {
 	var builds []*build
 	det := map[string]any{}
 	for i, tc := range tcs {
-		b := doBuild(prop, tc.bin, true, !race)
+		b := doBuild(prop, tc.bin, race, !race)
 		builds = append(builds, b)
 		fmt.Printf("built %s: %d files, %d preemption points, %s, %.1fs\n", prop, len(b.Instr.Files), b.Instr.Points, b.GoVer, b.BuildS)
 		share := budget
@@ -608,39 +608,85 @@ func runProperty(prop, tier string, seed uint64) int {
 
 	// ---- violations: minimise, replay, classify
 	exit := 0
-	nViolations := 0
-	reported := map[string]bool{}
+	nViolations := len(allViol)
 	knownPrinted := map[string]bool{}
 	os.MkdirAll(filepath.Join(verifHome, "out", "replays"), 0o755)
-	for i, vm := range allViol {
-		if kf := known.match(prop, vm.V); kf != nil {
-			if !knownPrinted[kf.Match] {
-				fmt.Printf("KNOWN-FINDING: property=%s %s\n", prop, kf.What)
-				knownPrinted[kf.Match] = true
+	// one report per violation class is enough (the counters still show all);
+	// deterministic oracles first, the race monitor's verdict last
+	type pick struct {
+		vm violationMsg
+		b  *build
+	}
+	var picks []pick
+	seenClass := map[string]bool{}
+	for pass := 0; pass < 2; pass++ {
+		for i, vm := range allViol {
+			if (vm.V.Class == "race") != (pass == 1) {
+				continue
+			}
+			if kf := known.match(prop, vm.V); kf != nil {
+				if !knownPrinted[kf.Match] {
+					fmt.Printf("KNOWN-FINDING: property=%s %s\n", prop, kf.What)
+					knownPrinted[kf.Match] = true
+				}
+				nViolations--
+				continue
+			}
+			if seenClass[vm.V.Class] || len(picks) >= 3 {
+				continue
+			}
+			seenClass[vm.V.Class] = true
+			picks = append(picks, pick{vm, violBuild[i]})
+		}
+	}
+	type outcome struct {
+		path, status string
+	}
+	outcomes := make([]outcome, len(picks))
+	var mwg sync.WaitGroup
+	for i := range picks {
+		mwg.Add(1)
+		go func(i int) {
+			defer mwg.Done()
+			p, st := minimiseAndVerify(picks[i].b, prop, picks[i].vm, seed, race)
+			outcomes[i] = outcome{p, st}
+		}(i)
+	}
+	mwg.Wait()
+	confirmed := 0
+	for i, pk := range picks {
+		vm := pk.vm
+		switch outcomes[i].status {
+		case "confirmed":
+			confirmed++
+			fmt.Printf("violation class=%s seed=%d worker=%d run=%d: %s\n", vm.V.Class, vm.Seed, vm.Worker, vm.Run, trunc(vm.V.Detail, 600))
+			fmt.Printf("VIOLATION property=%s replay=%s\n", prop, outcomes[i].path)
+			exit = 1
+		}
+	}
+	for i, pk := range picks {
+		vm := pk.vm
+		if outcomes[i].status == "confirmed" {
+			continue
+		}
+		if vm.V.Class == "race" {
+			// The monitor reported a race inside the batch (its reports have no
+			// false positives under the published edges) but a fresh process did
+			// not report it again: the monitor is lossy. It is still a violation
+			// that was observed; the file holds the un-minimised plan and the
+			// original report.
+			fmt.Printf("violation class=race (reported in the batch; not re-reported by the lossy monitor on replay) seed=%d worker=%d run=%d\n", vm.Seed, vm.Worker, vm.Run)
+			if confirmed == 0 {
+				fmt.Printf("VIOLATION property=%s replay=%s\n", prop, outcomes[i].path)
+				exit = 1
 			}
 			continue
 		}
-		if reported[vm.V.Class] || len(reported) >= 3 {
-			nViolations++
-			continue // one report per class is enough; the counters still show all
-		}
-		b := violBuild[i]
-		path, status := minimiseAndVerify(b, prop, vm, seed, race)
-		switch status {
-		case "confirmed":
-			// a minimised violation may turn out to be a known finding only now
-			reported[vm.V.Class] = true
-			nViolations++
-			fmt.Printf("violation class=%s seed=%d worker=%d run=%d: %s\n", vm.V.Class, vm.Seed, vm.Worker, vm.Run, trunc(vm.V.Detail, 600))
-			fmt.Printf("VIOLATION property=%s replay=%s\n", prop, path)
-			exit = 1
-		case "not-reproduced":
-			// A violation that does not reproduce in a fresh process from its own
-			// replay file is a harness defect (hidden nondeterminism), not a finding.
-			fmt.Printf("HARNESS-TROUBLE class=%s seed=%d: seen in the batch but not reproduced by its replay file %s\n", vm.V.Class, vm.Seed, path)
-			if exit == 0 {
-				exit = 2
-			}
+		// A deterministic oracle's violation that does not reproduce from its own
+		// replay file is a harness defect (hidden nondeterminism), not a finding.
+		fmt.Printf("HARNESS-TROUBLE class=%s seed=%d: seen in the batch but not reproduced by its replay file %s\n", vm.V.Class, vm.Seed, outcomes[i].path)
+		if exit == 0 {
+			exit = 2
 		}
 	}
 
@@ -807,7 +853,7 @@ func determinism(b *build, prop string, seed uint64, n, runs int, race bool) (bo
 			o := runWorker(bin, []string{"run", "-prop", prop, "-seed", fmt.Sprint(seed), "-worker", fmt.Sprint(1000 + j.w), "-runs", fmt.Sprint(runs), "-maxviol", "1000000"}, j.gmp, filepath.Join(b.Dir, fmt.Sprintf("race-det-%d", i)))
 			if o.stats != nil {
 				res[i], _ = o.stats["run_hash"].(string)
-				res[i] += fmt.Sprintf("/v%d", int(num(o.stats, "violations")))
+				res[i] += fmt.Sprintf("/v%d", int(num(o.stats, "det_violations")))
 			} else {
 				res[i] = "no-output: " + trunc(o.log, 300)
 			}
@@ -838,7 +884,7 @@ func minimiseAndVerify(b *build, prop string, vm violationMsg, seed uint64, race
 	os.WriteFile(raw, vm.File, 0o644)
 	final := filepath.Join(verifHome, "out", "replays", name)
 	minOut := filepath.Join(b.Dir, "min-"+name)
-	c := exec.Command(bin, "min", "-in", raw, "-out", minOut, "-secs", "90")
+	c := exec.Command(bin, "min", "-in", raw, "-out", minOut, "-secs", "30")
 	c.Env = append(goEnv(), "GORACE=halt_on_error=0 log_path=/dev/null")
 	out, _ := c.CombinedOutput()
 	src := raw
@@ -865,19 +911,36 @@ func minimiseAndVerify(b *build, prop string, vm violationMsg, seed uint64, race
 	tmp := filepath.Join(b.Dir, "replay-"+name)
 	data, _ = json.MarshalIndent(pf, "", " ")
 	os.WriteFile(tmp, data, 0o644)
-	o := runWorker(bin, []string{"exec", "-in", tmp, "-trace"}, 2, raceLog)
 	status := "not-reproduced"
-	if o.stats != nil {
-		if vs, ok := o.stats["violations"].([]any); ok {
-			for _, v := range vs {
-				if m, ok := v.(map[string]any); ok && m["class"] == vm.V.Class {
-					status = "confirmed"
-					pf["replayed"] = m
+	tries := 1
+	if vm.V.Class == "race" {
+		tries = 8
+	}
+	for try := 0; try < tries && status != "confirmed"; try++ {
+		if try > 0 {
+			// shift the race monitor's trace position (Plan.Jitter)
+			if plans, ok := pf["plans"].([]any); ok && len(plans) > 0 {
+				if last, ok := plans[len(plans)-1].(map[string]any); ok {
+					last["jitter"] = try
 				}
 			}
+			data, _ = json.MarshalIndent(pf, "", " ")
+			os.WriteFile(tmp, data, 0o644)
 		}
-		pf["trace"] = o.stats["trace"]
+		o := runWorker(bin, []string{"exec", "-in", tmp, "-trace"}, 2, raceLog)
+		if o.stats != nil {
+			if vs, ok := o.stats["violations"].([]any); ok {
+				for _, v := range vs {
+					if m, ok := v.(map[string]any); ok && m["class"] == vm.V.Class {
+						status = "confirmed"
+						pf["replayed"] = m
+					}
+				}
+			}
+			pf["trace"] = o.stats["trace"]
+		}
 	}
+	pf["replay_confirmed"] = status == "confirmed"
 	if matches, _ := filepath.Glob(raceLog + ".*"); len(matches) > 0 {
 		if t, err := os.ReadFile(matches[0]); err == nil {
 			pf["race_report"] = trunc(string(t), 6000)
